@@ -139,6 +139,10 @@ def check_one(spec, style, st, res, env, via_draw=False):
 
     image = st.images[style]
     verdict, info = fmtspec.parse(spec, style)
+    if verdict == "ok" and max(info["pad_width"], info["pad_height"]) > 200000:
+        # formatting would have to build gigabytes of padding: a resource limit, not a verdict
+        res.count("accepted specs with absurd padding sizes (resource limit, not judged)")
+        return
     before = st.snap
     try:
         out = format(image, spec)
